@@ -120,17 +120,29 @@ fn foreign(kind: usize, target: &str) -> Vec<Op> {
             v.extend([Op::SyncAll, Op::Quiesce]);
             v
         }
-        _ => {
+        16 => {
             let mut v = foreign(5, target);
             v.extend([Op::SyncAll, Op::Quiesce]);
             v
         }
+        // a class is given up in the middle of the roll: the rolling CA
+        // removes one of its two parents (every key of that class, staged
+        // or old ones included, has to be revoked and its certificate
+        // withdrawn by that parent); for the CA under the trust anchor: it
+        // removes its child while rolling
+        _ => if target == "c" {
+                vec![Op::RemoveParent { ca: "c".into(), parent: "q".into() },
+                     Op::Quiesce]
+             } else {
+                vec![Op::ChildRemove { parent: "p".into(), child: "c".into() },
+                     Op::Quiesce]
+             },
     }
 }
-const N_KINDS: usize = 17;
+const N_KINDS: usize = 18;
 /// Kinds run first in the quick tier (all gaps, both targets): the ones that
 /// make certificates travel while the roll is in an intermediate stage.
-const CORE_KINDS: &[usize] = &[16, 15, 8, 9];
+const CORE_KINDS: &[usize] = &[16, 15, 8, 9, 17];
 
 /// Roll steps with gaps 0..=4; `ins` = (gap, ops) insertions.
 fn roll_script(target: &str, ins: &[(usize, Vec<Op>)]) -> Vec<Op> {
